@@ -17,6 +17,9 @@
 #include <stdexcept>
 #include <string>
 #include <vector>
+#if __cplusplus >= 202002L
+#include <compare>
+#endif
 
 struct El {  // neither trivially copyable nor declared relocatable
   int v;
@@ -52,6 +55,34 @@ inline auto operator<=>(const El &a, const El &b) { return a.v <=> b.v; }
 inline auto operator<=>(const Tc &a, const Tc &b) { return a.v <=> b.v; }
 #endif
 
+struct Big {  // larger than a pointer, not trivially copyable
+  int v;
+  long pad[2];
+  Big() : v(0) { pad[0] = pad[1] = 7; }
+  Big(int x) : v(x) { pad[0] = pad[1] = 7; }
+  Big(const Big &o) : v(o.v) { pad[0] = pad[1] = 7; }
+  Big(Big &&o) noexcept : v(o.v) {
+    pad[0] = pad[1] = 7;
+    o.v = -1;
+  }
+  Big &operator=(const Big &o) {
+    v = o.v;
+    return *this;
+  }
+  Big &operator=(Big &&o) noexcept {
+    v = o.v;
+    if (this != &o) o.v = -1;
+    return *this;
+  }
+  ~Big() { v = -2; }
+};
+inline bool operator==(const Big &a, const Big &b) { return a.v == b.v; }
+inline bool operator!=(const Big &a, const Big &b) { return a.v != b.v; }
+inline bool operator<(const Big &a, const Big &b) { return a.v < b.v; }
+#if __cplusplus >= 202002L
+inline auto operator<=>(const Big &a, const Big &b) { return a.v <=> b.v; }
+#endif
+
 #ifndef C16_TYPE
 #define C16_TYPE 2
 #endif
@@ -79,11 +110,17 @@ typedef amc::vector<E> T;
 static const char *kFlav = "vector";
 static const long kN = 0;
 static const char *kElem = "TC";
-#else
+#elif C16_TYPE == 5
 typedef Tc E;
 typedef amc::SmallVector<E, 3> T;
 static const char *kFlav = "small";
 static const long kN = 3;
+static const char *kElem = "TC";
+#else
+typedef Big E;
+typedef amc::SmallVector<E, 2> T;
+static const char *kFlav = "small";
+static const long kN = 2;
 static const char *kElem = "TC";
 #endif
 typedef T::size_type SZ;
@@ -129,10 +166,20 @@ struct Result {
 static T *g_slot[3] = {0, 0, 0};
 static void *g_raw[3] = {0, 0, 0};
 
+// the object lives in a block followed by a guard zone: writing past the object is observed, not undefined luck
+static const size_t kGuard = 64;
 static void *fresh() {
   void *r = 0;
-  if (posix_memalign(&r, alignof(T) < sizeof(void *) ? sizeof(void *) : alignof(T), sizeof(T)) != 0) exit(2);
+  if (posix_memalign(&r, alignof(T) < sizeof(void *) ? sizeof(void *) : alignof(T), sizeof(T) + kGuard) != 0) exit(2);
+  memset(static_cast<char *>(r) + sizeof(T), 0xA5, kGuard);
   return r;
+}
+static bool guardsIntact() {
+  for (int c = 1; c <= 2; ++c)
+    if (g_raw[c])
+      for (size_t i = 0; i < kGuard; ++i)
+        if (static_cast<unsigned char *>(g_raw[c])[sizeof(T) + i] != 0xA5) return false;
+  return true;
 }
 
 static std::initializer_list<E> g_noil;
@@ -374,6 +421,7 @@ int main(int argc, char **argv) {
           g_slot[c]->~T();
           free(g_raw[c]);
           g_slot[c] = 0;
+          g_raw[c] = 0;
           std::string o1, o2;
           observe(1, o1);
           observe(2, o2);
@@ -408,6 +456,11 @@ int main(int argc, char **argv) {
       r.k = "exc", r.i = 0, r.s = "overflow_error";
     } catch (const std::exception &) {
       r.k = "exc", r.i = 0, r.s = "exception";
+    }
+    if (!guardsIntact()) {
+      r.k = "crash", r.i = 0, r.s = "wrote outside the object";
+      for (int c = 1; c <= 2; ++c)
+        if (g_raw[c]) memset(static_cast<char *>(g_raw[c]) + sizeof(T), 0xA5, kGuard);
     }
     std::string vs;
     for (size_t i = 0; i < lb.vs.size(); ++i) vs += (i ? "," : "") + num(lb.vs[i]);
